@@ -46,11 +46,38 @@ def ensure_ssadump():
     return binp
 
 
-def build_ir(prop, pkgs):
+_OVL = {}
+
+
+def overlay_dir(scratch):
+    """the tree overlaid on the repository: the harness files plus the source rewrites of harness/REWRITES.json, which are
+    re-applied to the repository's current files on every run (environment stubs: e.g. the status ticker of the send loop)."""
+    if scratch in _OVL:
+        return _OVL[scratch]
+    d = os.path.join(scratch, "ovl")
+    shutil.rmtree(d, ignore_errors=True)
+    shutil.copytree(HARNESS, d, ignore=shutil.ignore_patterns("REWRITES.json"))
+    rw = os.path.join(HARNESS, "REWRITES.json")
+    if os.path.exists(rw):
+        for r in json.load(open(rw)):
+            src = os.path.join(REPO, r["file"])
+            if not os.path.exists(src):
+                continue
+            txt = open(src).read()
+            if txt.count(r["old"]) != r.get("count", 1):
+                continue  # the code changed shape: leave the file alone; the checks that need the stub report it
+            dst = os.path.join(d, r["file"])
+            os.makedirs(os.path.dirname(dst), exist_ok=True)
+            open(dst, "w").write(txt.replace(r["old"], r["new"]))
+    _OVL[scratch] = d
+    return d
+
+
+def build_ir(prop, pkgs, scratch):
     binp = ensure_ssadump()
     out = os.path.join(CACHE, "ir_%s_%d.json" % (prop, os.getpid()))
     t0 = time.time()
-    r = sh([binp, "-dir", REPO, "-overlay", HARNESS, "-out", out] + pkgs + ["./internal/zzverif"], env=GOENV)
+    r = sh([binp, "-dir", REPO, "-overlay", overlay_dir(scratch), "-out", out] + pkgs + ["./internal/zzverif"], env=GOENV)
     if r.returncode != 0:
         print(r.stdout)
         return None, time.time() - t0, r.stdout
@@ -208,10 +235,11 @@ def native_run(cases, scratch):
         bypkg.setdefault(rel, []).append((idx, fn, c))
     results = [None] * len(cases)
     overlay = {}
-    for d, _, files in os.walk(HARNESS):
+    ovd = overlay_dir(scratch)
+    for d, _, files in os.walk(ovd):
         for f in files:
             if f.endswith(".go"):
-                rel = os.path.relpath(os.path.join(d, f), HARNESS)
+                rel = os.path.relpath(os.path.join(d, f), ovd)
                 overlay[os.path.join(REPO, rel)] = os.path.join(d, f)
     logs = []
     for rel, lst in bypkg.items():
@@ -280,7 +308,7 @@ def check(prop, tier, only=None):
     evidence_path = os.path.join(ROOT, "evidence", prop + ".json")
     status = {"violations": [], "inconclusive": [], "known": []}
     try:
-        irpath, ir_s, log = build_ir(prop, spec.PACKAGES)
+        irpath, ir_s, log = build_ir(prop, spec.PACKAGES, scratch)
         if irpath is None:
             status["inconclusive"].append("IR generation failed (does /repo build?): " + log[-400:])
             return finish(prop, tier, seed, spec, [], status, t_start, {}, evidence_path)
